@@ -510,10 +510,10 @@ func c13R3(c *Ctx) {
 	c.floor("C13.R3", 10)
 	// named exceptions: construct -> invariant
 	exceptions := map[string]string{
-		"(*server/cluster.State).LocalNode/panic":              "guard `local node not in cluster`: the local id is inserted by NewState and no remote mutator accepts it (C04.R6)",
-		"(*server/cluster.State).LocalEndpointListeners/panic": "same invariant (C04.R6)",
-		"(*server/cluster.State).AddLocalEndpoint/panic":       "same invariant (C04.R6)",
-		"(*server/cluster.State).RemoveLocalEndpoint/panic":    "same invariant (C04.R6)",
+		"(*server/cluster.State).LocalNode/panic":                               "guard `local node not in cluster`: the local id is inserted by NewState and no remote mutator accepts it (C04.R6)",
+		"(*server/cluster.State).LocalEndpointListeners/panic":                  "same invariant (C04.R6)",
+		"(*server/cluster.State).AddLocalEndpoint/panic":                        "same invariant (C04.R6)",
+		"(*server/cluster.State).RemoveLocalEndpoint/panic":                     "same invariant (C04.R6)",
 		"(*pkg/gossip.arrivalIntervals).Add/index:*P:i.&intervals[*P:i.&index]": "0 <= index < len(intervals): index is reset to 0 when it reaches len and otherwise only incremented (C12.R3 checks exactly this)",
 	}
 	used := map[string]bool{}
